@@ -349,7 +349,7 @@ func mapOpsToScriptLit(mk mapKinds, ops []MapOp, lit int) string {
 	}
 	for i, op := range ops[:lit] {
 		if dup {
-			fmt.Fprintf(&b, "\tkv%d := %s\n", i, mk.keyLit(op.K))
+			fmt.Fprintf(&b, "\tvar kv%d %s = %s\n", i, mk.keyType(), mk.keyLit(op.K)) // typed: a key variable has the map's key type
 			ents = append(ents, fmt.Sprintf("kv%d: %s", i, mk.valLit(op.V)))
 			continue
 		}
